@@ -58,6 +58,13 @@ impl Report {
         if self.mismatches.len() < 40 { self.mismatches.push(json!({"case": case, "detail": detail})); }
     }
     pub fn sample(&mut self, v: Value) { if self.samples.len() < 5 { self.samples.push(v); } }
+    pub fn merge(&mut self, o: Report) {
+        self.cases += o.cases; self.checks += o.checks; self.n_mismatch += o.n_mismatch;
+        for m in o.mismatches { if self.mismatches.len() < 40 { self.mismatches.push(m); } }
+        for (k, v) in o.classes { *self.classes.entry(k).or_insert(0) += v; }
+        for s in o.samples { if self.samples.len() < 5 { self.samples.push(s); } }
+        for (k, v) in o.extra { self.extra.insert(k, v); }
+    }
     pub fn to_json(&self) -> Value {
         json!({"cases": self.cases, "checks": self.checks, "n_mismatch": self.n_mismatch,
                "mismatches": self.mismatches, "classes": self.classes, "samples": self.samples, "extra": self.extra})
